@@ -581,5 +581,47 @@ def run(ctx):
         judge_roundtrip(ctx, els, fmt, sr)
 
 
+def _o_from_spec(o):
+    """Rebuild label_to_tags options from their spec form (mappings are canonical: hit = key 'x', miss = key 'other')."""
+    from soundevent import data
+
+    out = {"tag_fn_mode": o.get("tag_fn_mode"), "key": o.get("key"), "fallback": o.get("fallback")}
+    if o.get("term"):
+        out["term"] = data.term_from_key(o["term"])
+    if "tag_mapping" in o:
+        out["tag_mapping"] = {"x": [_tag("m", "1"), _tag("m", "2")]} if "x" in o["tag_mapping"] else {"other": _tag("m", "1")}
+    if "term_mapping" in o:
+        tm = data.term_from_key("mapped_term")
+        out["term_mapping"] = {"x": tm} if "x" in o["term_mapping"] else {"other": tm}
+    if "key_mapping" in o:
+        out["key_mapping"] = {"x": "mapped_key"} if "x" in o["key_mapping"] else {"other": "mapped_key"}
+    return out
+
+
+def _f_from_spec(o):
+    out = dict(o)
+    if "label_mapping" in o:
+        out["label_mapping"] = {_tag("species", "a"): "MAPPED"} if "species:a" in o["label_mapping"] else {_tag("zzz", "q"): "MAPPED"}
+    return out
+
+
 def replay(ctx, w):
-    ctx.inconclusive_because("replay_of_C10_cases_with_callables_is_not_supported:rerun_the_tier_with_the_same_seed")
+    s = w["spec"]
+    ctx.case("replay", s)
+    k = s["kind"]
+    if k == "label_to_tags":
+        judge_label_to_tags(ctx, s["label"], _o_from_spec(s["options"]))
+    elif k == "label_from_tags":
+        judge_label_from_tags(ctx, s["tags"], _f_from_spec(s["options"]))
+    elif k == "import_segment":
+        judge_import_segment(ctx, s.get("onset_s"), s.get("offset_s"), s.get("onset_sample"), s.get("offset_sample"), s["label"], s["sr"], s["te"], s["adjust"])
+    elif k == "import_bbox":
+        judge_import_bbox(ctx, s["onset"], s["offset"], s["low"], s["high"], s["label"], s["sr"], s["te"], s["adjust"])
+    elif k == "export_segment":
+        judge_export_segment(ctx, s["g"], s["tags"], s["sr"], s["cast"], _f_from_spec(s["options"]))
+    elif k == "export_bbox":
+        judge_export_bbox(ctx, s["g"], s["tags"], s["sr"], s["cast"], s["raise_time"], _f_from_spec(s["options"]))
+    elif k == "sequence_export":
+        judge_sequence_export(ctx, [tuple(i) for i in s["items"]], s["sr"], s["cast"], s["ignore_errors"], s["fmt"], s.get("raise_time", True))
+    elif k == "roundtrip":
+        judge_roundtrip(ctx, s["elements"], s["fmt"], s["sr"])
